@@ -478,3 +478,139 @@ pub fn key_pool(rng: &mut Rng) -> Vec<schema::PublicKey> {
     v.push(schema::PublicKey { algorithm: 1, key: vec![2u8; 33] });
     v
 }
+
+// ------------------------------------------------------------------ snapshot blocks
+
+pub fn g_psnap(b: &schema::SnapshotBlock) -> G {
+    rec(
+        "mkpsnap",
+        vec![
+            ("ps_context", gopt(b.context.as_ref().map(|s| gstr(s)))),
+            ("ps_version", gopt(b.version.map(|v| G::N(v as u64)))),
+            ("ps_facts", G::L(b.facts_v2.iter().map(|f| crate::blockwire::g_ppred(&f.predicate)).collect())),
+            ("ps_rules", G::L(b.rules_v2.iter().map(crate::blockwire::g_prule).collect())),
+            ("ps_checks", G::L(b.checks_v2.iter().map(crate::blockwire::g_pcheck).collect())),
+            ("ps_scopes", G::L(b.scope.iter().map(crate::blockwire::g_pscope).collect())),
+            ("ps_external", gopt(b.external_key.as_ref().map(g_wkey))),
+        ],
+    )
+}
+
+pub struct SvCase {
+    pub kind: String,
+    pub snap: schema::SnapshotBlock,
+    pub tab: Vec<(i32, Vec<u8>, Option<Vec<u8>>)>,
+    /// None = panic
+    pub outcome: Option<Result<(G, G, G), &'static str>>,
+}
+
+fn g_iblock_of<B>(b: &B, fields: (Vec<G>, Option<G>, u64, Vec<G>, Vec<G>, Vec<G>, Vec<G>, Vec<G>, bool)) -> G {
+    let _ = b;
+    let (symbols, context, version, facts, rules, checks, scopes, keys, ext) = fields;
+    rec(
+        "mkiblock",
+        vec![
+            ("ib_symbols", G::L(symbols)),
+            ("ib_context", gopt(context)),
+            ("ib_version", G::N(version)),
+            ("ib_facts", G::L(facts)),
+            ("ib_rules", G::L(rules)),
+            ("ib_checks", G::L(checks)),
+            ("ib_scopes", G::L(scopes)),
+            ("ib_keys", G::L(keys)),
+            ("ib_external", G::B(ext)),
+        ],
+    )
+}
+
+pub fn sv_case(kind: &str, snap: schema::SnapshotBlock) -> SvCase {
+    use biscuit_auth::format::convert::{proto_snapshot_block_to_token_block, token_block_to_proto_snapshot_block};
+    let tab: Vec<(i32, Vec<u8>, Option<Vec<u8>>)> = snap.external_key.iter().map(|k| (k.algorithm, k.key.clone(), key_canon(k.algorithm, &k.key))).collect();
+    let s2 = snap.clone();
+    let r = std::panic::catch_unwind(move || match proto_snapshot_block_to_token_block(&s2) {
+        Err(e) => Err(class(&e)),
+        Ok(b) => {
+            let checks: Vec<G> = b
+                .checks
+                .iter()
+                .map(|k| {
+                    rec(
+                        "mkicheck",
+                        vec![
+                            ("ic_queries", G::L(k.queries.iter().map(g_irule).collect())),
+                            (
+                                "ic_kind",
+                                c0(match k.kind {
+                                    biscuit_auth::builder::CheckKind::One => "ICOne",
+                                    biscuit_auth::builder::CheckKind::All => "ICAll",
+                                    biscuit_auth::builder::CheckKind::Reject => "ICReject",
+                                }),
+                            ),
+                        ],
+                    )
+                })
+                .collect();
+            let g = g_iblock_of(
+                &b,
+                (
+                    b.symbols.strings().iter().map(|s| gstr(s)).collect(),
+                    b.context.as_ref().map(|s| gstr(s)),
+                    b.version as u64,
+                    b.facts.iter().map(|f| g_ipred(&f.predicate)).collect(),
+                    b.rules.iter().map(g_irule).collect(),
+                    checks,
+                    b.scopes.iter().map(g_iscope).collect(),
+                    (0..b.public_keys.current_offset() as u64)
+                        .map(|i| {
+                            let k = b.public_keys.get_key(i).expect("key index");
+                            g_wkey(&schema::PublicKey { algorithm: k.algorithm() as i32, key: k.to_bytes() })
+                        })
+                        .collect(),
+                    b.external_key.is_some(),
+                ),
+            );
+            let ek = gopt(b.external_key.map(|k| g_wkey(&schema::PublicKey { algorithm: k.algorithm() as i32, key: k.to_bytes() })));
+            let back = g_psnap(&token_block_to_proto_snapshot_block(&b));
+            Ok((g, ek, back))
+        }
+    });
+    SvCase { kind: kind.to_string(), snap, tab, outcome: r.ok() }
+}
+
+pub fn g_svcase(cs: &SvCase) -> G {
+    let tab = G::L(cs.tab.iter().map(|(a, b, r)| G::T(vec![G::Z(*a as i128), gbytes(b), gopt(r.as_ref().map(|x| gbytes(x)))])).collect());
+    let out = match &cs.outcome {
+        Some(Err(e)) => c("SVErr", vec![c0(if *e == "COther" { "CDeser" } else { e })]),
+        Some(Ok((g, ek, back))) => c("SVOk", vec![g.clone(), ek.clone(), back.clone()]),
+        None => c("SVErr", vec![c0("CDeser")]),
+    };
+    c("SVCase", vec![g_psnap(&cs.snap), tab, out])
+}
+
+/// the snapshot form of a block: tables dropped, an external key drawn from the pool (or a defective one)
+pub fn snapshot_of(g: &mut CGen, b: &schema::Block) -> schema::SnapshotBlock {
+    let external_key = if g.rng.chance(1, 2) {
+        None
+    } else {
+        let mut k = g.keys[g.rng.below(g.keys.len() as u64) as usize].clone();
+        if g.rng.chance(1, 8) {
+            match g.rng.below(3) {
+                0 => k.algorithm = g.rng.range(-1, 4) as i32,
+                1 => {
+                    k.key.pop();
+                }
+                _ => k.key.push(1),
+            }
+        }
+        Some(k)
+    };
+    schema::SnapshotBlock {
+        context: b.context.clone(),
+        version: b.version,
+        facts_v2: b.facts_v2.clone(),
+        rules_v2: b.rules_v2.clone(),
+        checks_v2: b.checks_v2.clone(),
+        scope: b.scope.clone(),
+        external_key,
+    }
+}
